@@ -531,6 +531,17 @@ pub fn plan_for(property: &str, seed: u64) -> Plan {
             plan.conns.truncate(1);
             plan
         }
+        "C05" => {
+            // the wire-conformance monitor rides on the other families' traffic
+            let mut plan = match seed % 4 {
+                0 => plan_for("C04", seed),
+                1 => plan_for("C06", seed),
+                2 => plan_for("C03", seed),
+                _ => plan_for("C01", seed),
+            };
+            plan.property = "C05".into();
+            plan
+        }
         "C06" => {
             if r.chance(2, 3) {
                 // only additive faults: every genuine datagram still arrives, so the connection
@@ -605,6 +616,79 @@ pub fn plan_for(property: &str, seed: u64) -> Plan {
             let end = r.pick(&[2_000_000u64, 12_000_000]);
             plan.faults_end_us = Some(end);
             plan.time_cap_us += end;
+            plan
+        }
+        "C11" => {
+            let p = Profile {
+                max_conns: 3,
+                max_streams: 2,
+                max_stream_bytes: 5_000,
+                corrupting: false,
+                fault_rates_permille: &[0, 20, 50, 150, 300],
+                ..Default::default()
+            };
+            let mut plan = base_plan(seed, property, "c11.amplification", &mut r, &p);
+            plan.cfg.cert_size = r.pick(&[1000u32, 4000, 8000, 16000, 16000]);
+            plan.cfg.server.retry = r.chance(1, 5);
+            // handshake-phase faults: early ordinals
+            for _ in 0..r.below(5) {
+                plan.faults.push(Fault {
+                    when: When::Nth { dir: if r.chance(1, 2) { Dir::C2S } else { Dir::S2C }, n: r.below(20) },
+                    action: match r.below(3) {
+                        0 => Action::Drop,
+                        1 => Action::Dup { k: r.range(1, 3) as u8, extra_us: r.pick(&[0u64, 1_000, 100_000]) },
+                        _ => Action::Delay { us: r.pick(&[1_000u64, 100_000, 2_000_000]) },
+                    },
+                });
+            }
+            for _ in 0..r.range(0, 40) {
+                plan.attacker.push(AttackerDatagram {
+                    at_us: r.below(5_000_000),
+                    to_server: r.chance(5, 6),
+                    kind: r.pick(&[AttackKind::Garbage, AttackKind::ShortHeaderUnknownCid, AttackKind::LongHeaderUnknownVersion, AttackKind::VersionNegotiation, AttackKind::InitialVersionZero]),
+                    len: match r.below(4) {
+                        0 => r.range(1, 60),
+                        1 => r.range(1190, 1210),
+                        _ => r.range(1, 1500),
+                    } as u32,
+                    key: r.next(),
+                });
+            }
+            let end = 6_000_000u64;
+            plan.faults_end_us = Some(end);
+            plan.time_cap_us += end;
+            plan
+        }
+        "C14" => {
+            let p = Profile {
+                max_conns: 1,
+                max_streams: 4,
+                max_stream_bytes: 40_000,
+                fault_rates_permille: &[0],
+                corrupting: false,
+                ..Default::default()
+            };
+            let mut plan = base_plan(seed, property, "c14.params", &mut r, &p);
+            plan.faults.clear();
+            plan.cfg.jitter_us = 0;
+            // enumerate: (side, rule) by seed
+            let client_block = (seed / 2) % 2 == 0;
+            let cat = crate::oracle6::catalogue(client_block);
+            let rule = cat[((seed / 4) % cat.len() as u64) as usize].clone();
+            // sometimes combine with an unknown parameter and a reordering (still one verdict)
+            let rule = match seed % 2 {
+                0 => rule,
+                _ => TpRule::Multi(vec![TpRule::Raw { id: 31 * (seed % 1000) + 27, bytes: vec![0x11; (seed % 7) as usize] }, rule, TpRule::Reverse]),
+            };
+            if client_block {
+                plan.cfg.client.tp_rule = Some(rule);
+            } else {
+                plan.cfg.server.tp_rule = Some(rule);
+            }
+            plan.conns.truncate(1);
+            // zeroed limits leave operations pending for good; the verdict and the applied limits
+            // are decided long before this
+            plan.time_cap_us = plan.time_cap_us.min(60_000_000);
             plan
         }
         "C12" => {
